@@ -102,6 +102,7 @@ type ClientPlan struct {
 	RW              string  `json:"rw,omitempty"`                // flusher | flusherr | unwrap | noflush
 	WriterFailAfter int     `json:"writer_fail_after,omitempty"` // >0: client goes away after this many response bytes
 	CancelAtStep    int     `json:"cancel_at_step,omitempty"`    // >0: request context cancelled at this scheduler step
+	CtxDeadlineS    int     `json:"ctx_deadline_s,omitempty"`    // >0: the request context already carries a deadline that many (real) seconds away, as under http.TimeoutHandler
 }
 
 type RPCPlan struct {
